@@ -26,6 +26,8 @@ import (
 	tierkeeper "github.com/elys-network/elys/x/tier/keeper"
 	tiertypes "github.com/elys-network/elys/x/tier/types"
 	vrf "github.com/elys-network/elys/zzvrf"
+	"github.com/elys-network/elys/zzvrf/h_c08"
+	"github.com/elys-network/elys/zzvrf/h_c09"
 	"github.com/elys-network/elys/zzvrf/wire"
 )
 
@@ -412,3 +414,54 @@ func H_Masterchef_ConvertFees_ConstantProduct() { convertFees(false) }
 //vrf:cover done
 //vrf:bound as above with an oracle pool whose trading-asset price is absent (outage)
 func H_Masterchef_ConvertFees_OraclePool_Outage() { convertFees(true) }
+
+// ---- perpetual and leveragelp begin blockers ----
+
+// perpetual BeginBlocker from a symbolic pool state (aggregates = sums over positions, custody backed), arbitrary
+// previous borrow-interest rate and parameters within Params.Validate(), arbitrary blocks-per-year >= 1
+//
+//vrf:cover done
+//vrf:bound 1 perpetual pool with symbolic aggregates of the shape positions have (LONG custody / SHORT liabilities in the trading asset only, long trading-asset collateral <= long custody), symbolic amm reserves, previous rate in [0, 1], height / time symbolic
+//vrf:assert-ms 60000
+func H_Perpetual_BeginBlocker() {
+	env := h_c09.Setup()
+	ctx := env.Ctx
+	pp := ptypes.DefaultParams()
+	pp.TotalBlocksPerYear = vrf.U64("blocksPerYear", 1, maxT)
+	env.Param.SetParams(ctx, pp)
+	pool, _ := env.Perp.GetPool(ctx, 1)
+	prev := vrf.Dec("prevBorrowRate")
+	vrf.Assume(!prev.IsNegative())
+	vrf.Assume(prev.LTE(sdkmath.LegacyOneDec()))
+	pool.BorrowInterestRate = prev
+	// the shape positions really have: LONG custody in the trading asset and liabilities in the base currency,
+	// SHORT the other way round with base-currency collateral; a long's trading-asset collateral is part of its custody
+	for i := range pool.PoolAssetsLong {
+		l, s := &pool.PoolAssetsLong[i], &pool.PoolAssetsShort[i]
+		if l.AssetDenom == usdc {
+			vrf.Assume(l.Custody.IsZero())
+			vrf.Assume(s.Liabilities.IsZero())
+		} else {
+			vrf.Assume(l.Liabilities.IsZero())
+			vrf.Assume(l.Collateral.LTE(l.Custody))
+			vrf.Assume(s.Custody.IsZero())
+			vrf.Assume(s.Collateral.IsZero())
+		}
+	}
+	env.Perp.SetPool(ctx, pool)
+	p := guard(func() { env.Perp.BeginBlocker(ctx) })
+	vrf.Assert(!p, "C18: perpetual BeginBlocker never panics")
+	vrf.Cover("done")
+}
+
+// leveragelp BeginBlocker over two positions of one pool (liquidations, stop-loss closes, swallowed errors)
+//
+//vrf:cover done
+//vrf:bound see h_c08.H_BeginBlocker_TwoPositions
+//vrf:max-paths 4000
+func H_Leveragelp_BeginBlocker() {
+	env := h_c08.SetupTwoPositions()
+	p := guard(func() { env.Lev.BeginBlocker(env.Ctx) })
+	vrf.Assert(!p, "C18: leveragelp BeginBlocker never panics")
+	vrf.Cover("done")
+}
